@@ -155,6 +155,9 @@ def replay(o, tree):
     if r_ is not None:
         return r_
     import os
+    if "late binding" in o.get("label", ""):
+        from contracts import c02
+        return c02.replay(o, tree)
     if o.get("unit") == "use-positions-rac":
         return None          # evaluated on the real assembler already: the failing use is in the obligation's detail
     if (o.get("cfg") or {}).get("kind") == "poly-nested":
